@@ -2,6 +2,7 @@
  *   (rc/probe)      new threaded abstract whose finalizer counts its invocations
  *   (rc/watch x)    take one C-side reference on threaded abstract x and remember it (memory stays readable); returns x
  *   (rc/count x)    current reference count of threaded abstract x
+ *   (rc/finalized)  [probes created, finalizer runs so far]
  * runs the janet program given as argv[1] (all event loops included), then reports
  *   FINAL <i> <refcount>      for every watched object (expected 1 = the C side's own reference)
  *   PROBES <created> <finalized-before-deinit> <finalized-after-deinit>
@@ -48,6 +49,13 @@ static Janet cfun_count(int32_t argc, Janet *argv) {
     janet_fixarity(argc, 1);
     if (!janet_checktype(argv[0], JANET_ABSTRACT)) janet_panic("abstract expected");
     return janet_wrap_integer(janet_abstract_head(janet_unwrap_abstract(argv[0]))->gc.data.refcount);
+}
+/* (rc/finalized): [probes created, probe finalizer runs so far] */
+static Janet cfun_finalized(int32_t argc, Janet *argv) {
+    (void) argv;
+    janet_fixarity(argc, 0);
+    Janet tup[2] = {janet_wrap_integer(created), janet_wrap_integer(finalized)};
+    return janet_wrap_tuple(janet_tuple_n(tup, 2));
 }
 /* A second OS thread (own VM) touches thread channel `p` through the C API (mode 0: janet_channel_give 7, mode 1: janet_channel_take).
  * If the channel mutex was left locked by the thread under test, the second thread blocks for ever in pthread_mutex_lock.
@@ -124,7 +132,7 @@ static Janet cfun_capi_make(int32_t argc, Janet *argv) {
 }
 static const JanetReg cfuns[] = {
     {"rc/capi-take", cfun_capi_take, NULL}, {"rc/other-thread-take", cfun_other_take, NULL}, {"rc/capi-make-threaded", cfun_capi_make, NULL},
-    {"rc/probe", cfun_probe, NULL}, {"rc/watch", cfun_watch, NULL}, {"rc/count", cfun_count, NULL}, {NULL, NULL, NULL}
+    {"rc/probe", cfun_probe, NULL}, {"rc/finalized", cfun_finalized, NULL}, {"rc/watch", cfun_watch, NULL}, {"rc/count", cfun_count, NULL}, {NULL, NULL, NULL}
 };
 
 int main(int argc, char **argv) {
